@@ -124,6 +124,8 @@ def eq(a, b):
     ka, kb = kind(a), kind(b)
     if not is_sym(a) and not is_sym(b) and ka not in ("tuple", "list", "obj", "seq", "dict", "set") and kb not in ("tuple", "list", "obj", "seq", "dict", "set"):
         if ka == "other" or kb == "other":
+            if isinstance(a, (bytes, bytearray)) and isinstance(b, (bytes, bytearray)):
+                return a == b
             return a is b
         return a == b
     num = ("int", "bool", "real")
